@@ -24,7 +24,22 @@ def workload(tier: str, seed: int) -> tuple[list[dict], list[dict], dict]:
     b2, st2 = lcase.s2_cases(defs, seed, per_def=s2)
     stats.update(st2)
     stats["definitions"] = len(defs)
-    groups = base + b2
+    # beyond F: executions with counts > 1 (same event type on parallel branches) - judged by
+    # the ingestion-level monitor only (exact reference for any job DAG)
+    import random as _r
+    from vlib import gen
+    rngc = _r.Random(f"c03-counts-{seed}")
+    ncounts = 30 if tier == "quick" else 400
+    cdefs = []
+    for i in range(ncounts):
+        ast = gen.random_counts_def(rngc)
+        cdefs.append({"name": f"cnt{i}", "kind": "counts", "ast": ast,
+                      "tags": sorted(gen.tags_of(ast) | {"beyond-F", "counts"})})
+    cgroups, _cst = lcase.s1_cases(cdefs, seed, k_list=(2,), schedules=1)
+    for c in cgroups:
+        c["ingest_only"] = True
+    stats["ingestion_only_job_sets_with_counts"] = len(cgroups)
+    groups = base + b2 + cgroups
     cases = []
     wd = core.work_dir()
     for g, b in enumerate(groups):
@@ -32,7 +47,7 @@ def workload(tier: str, seed: int) -> tuple[list[dict], list[dict], dict]:
             variant = VARIANTS[p] if p < len(VARIANTS) else ("all", "group-by-job")[p % 2]
             cases.append({"group": g, "name": b["name"], "jobs": b["jobs"], "variant": variant,
                           "uuid_seed": f"{seed}-{g}-{p}", "rng_seed": f"{seed}-{g}-{p}",
-                          "work_dir": wd})
+                          "work_dir": wd, "ingest_only": b.get("ingest_only", False)})
     stats["presentations_per_job_set"] = npres
     return groups, cases, stats
 
@@ -53,6 +68,8 @@ def judge_group(g: dict, rs: list[dict]) -> tuple[list[tuple[str, dict]], list[s
     if mism:
         sym.append(("ingestion:differs-from-reference",
                     {"presentation": mism[0]["variant"], "diff": mism[0].get("ingest_diff")}))
+    if all(r.get("ingest_only") for r in rs):
+        return sym, []
     ok = [r for r in rs if r["learn_ok"]]
     ko = [r for r in rs if not r["learn_ok"]]
     if ok and ko:
@@ -161,8 +178,9 @@ def main(tier: str, seed: int) -> int:
         if sym:
             st["flagged"] += 1
         for s, detail in sym:
-            witness = {"group_case": {k: b[k] for k in ("name", "kind", "src", "tags", "stratum",
-                                                        "k", "jobs")},
+            witness = {"group_case": {k: b.get(k) for k in ("name", "kind", "src", "tags",
+                                                            "stratum", "k", "jobs",
+                                                            "ingest_only")},
                        "seed": seed, "group": g, "tier": tier, "detail": detail,
                        "presentations": [{"variant": r["variant"], "hashseed": r.get("_hashseed"),
                                           "ok": r["learn_ok"], "exc": r.get("exc_type"),
@@ -197,7 +215,7 @@ def replay(path: str) -> int:
         variant = VARIANTS[p] if p < len(VARIANTS) else ("all", "group-by-job")[p % 2]
         cases.append({"group": 0, "name": b["name"], "jobs": b["jobs"], "variant": variant,
                       "uuid_seed": f"{seed}-{g}-{p}", "rng_seed": f"{seed}-{g}-{p}",
-                      "work_dir": core.work_dir()})
+                      "work_dir": core.work_dir(), "ingest_only": b.get("ingest_only", False)})
     bad = False
     rs = []
     for c, pinfo in zip(cases, w["presentations"]):
